@@ -25,6 +25,7 @@ import (
 	metav1 "k8s.io/apimachinery/pkg/apis/meta/v1"
 	apimachineryvalidation "k8s.io/apimachinery/pkg/util/validation"
 	"k8s.io/apimachinery/pkg/util/validation/field"
+	"k8s.io/client-go/tools/cache"
 	apivalidation "k8s.io/kubernetes/pkg/apis/core/validation"
 	"k8s.io/utils/clock"
 	"k8s.io/utils/pointer"
@@ -77,6 +78,40 @@ func (v *Validator) ValidateJobConfig(rjc *v1alpha1.JobConfig) field.ErrorList {
 	allErrs := field.ErrorList{}
 	allErrs = append(allErrs, validation.ValidateMaxLength(rjc.Name, maxJobConfigNameLen, field.NewPath("metadata").Child("name"))...)
 	allErrs = append(allErrs, v.ValidateJobConfigSpec(&rjc.Spec, field.NewPath("spec"))...)
+	if len(allErrs) == 0 {
+		allErrs = append(allErrs, v.validateCronScheduleForJobConfig(rjc, field.NewPath("spec", "schedule", "cron"))...)
+	}
+	return allErrs
+}
+
+// validateCronScheduleForJobConfig validates that the cron schedule of the
+// JobConfig can be parsed using the hash ID that the scheduler will use for it.
+// Hashed fields are resolved differently for each hash ID, so an expression
+// which parses with an empty hash ID may still fail to parse for the JobConfig.
+func (v *Validator) validateCronScheduleForJobConfig(rjc *v1alpha1.JobConfig, fldPath *field.Path) field.ErrorList {
+	allErrs := field.ErrorList{}
+	if rjc.Spec.Schedule == nil || rjc.Spec.Schedule.Cron == nil {
+		return allErrs
+	}
+
+	cfg, err := v.ctrlContext.Configs().Cron()
+	if err != nil {
+		allErrs = append(allErrs, field.InternalError(fldPath, errors.Wrapf(err, "cannot load cron config")))
+		return allErrs
+	}
+	hashID, err := cache.MetaNamespaceKeyFunc(rjc)
+	if err != nil {
+		allErrs = append(allErrs, field.InternalError(fldPath, errors.Wrapf(err, "cannot get namespaced name")))
+		return allErrs
+	}
+
+	parser := cron.NewParserFromConfig(cfg)
+	for _, expression := range rjc.Spec.Schedule.Cron.GetExpressions() {
+		if _, err := parser.Parse(expression, hashID); err != nil {
+			allErrs = append(allErrs, field.Invalid(fldPath, expression, "cannot parse cron schedule"))
+		}
+	}
+
 	return allErrs
 }
 
